@@ -162,3 +162,29 @@ Proof.
   - destruct T as [T|T]; auto. subst cut. destruct Hin.
   - apply killed_while_answering; auto.
 Qed.
+
+(* ---------- (c') the ending matters: an aborting close would turn the fallback into an error ---------- *)
+
+Lemma exit_closes_orderly : close_ending accepted_abort_on_close = Eof.
+Proof. reflexivity. Qed.
+
+Lemma reset_is_fatal opq ig f (k : nat) :
+  blen (encode_finished f) < 4294967296 ->
+  (k < length (frame (encode_finished f)))%nat ->
+  cut_client_ending opq ig f k (close_ending true)
+  = (if ig then RunLocally LIgnoredError else SccacheError EAfterAck).
+Proof.
+  intros Hlen Hk. unfold cut_client_ending, cut_stream, close_ending.
+  apply (io_error_after_ack opq ig _ (encode_compile_response CompileStarted)
+           (firstn k (frame (encode_finished f))) Reset).
+  - apply framed_frame. reflexivity.
+  - apply decode_encode_started.
+  - left. split; [apply prefix_cut_short; assumption | discriminate].
+Qed.
+
+Lemma orderly_close_falls_back opq ig f (k : nat) local :
+  blen (encode_finished f) < 4294967296 ->
+  (k < length (frame (encode_finished f)))%nat ->
+  cut_client_ending opq ig f k (close_ending accepted_abort_on_close) = RunLocally LEofAfterAck
+  /\ exit_code (cut_client_ending opq ig f k (close_ending accepted_abort_on_close)) local = local.
+Proof. intros. unfold cut_client_ending, cut_stream. simpl. now apply killed_while_answering. Qed.
